@@ -11,7 +11,7 @@ open Conv
 
 type k = KC | KV | KT
 
-type vi = { n : int; t : ty; var : bool }
+type vi = { n : int; t : ty; var : bool; ctr : bool }
 
 type st = { rng : Rng.t; mutable next : int; level : int; mutable fuelv : int }
 
@@ -29,9 +29,12 @@ let small_int st =
   | 5 -> Rng.pick st.rng [2147483647; -2147483648; 2147483646; -2147483647; 65536; 46341; 32768]
   | _ -> Rng.range st.rng (-20) 20
 
-let bind env x t var = { n = x; t; var } :: List.filter (fun v -> v.n <> x) env
+let bind env x t var = { n = x; t; var; ctr = false } :: List.filter (fun v -> v.n <> x) env
 
-let vars_of env t = List.filter (fun v -> v.t = t) env
+(* loop counters are not values: they are read only as operands of arithmetic / comparisons (so that
+   no alias of the counter's cell exists and the loops terminate) *)
+let vars_of env t = List.filter (fun v -> v.t = t && not v.ctr) env
+let ctrs_of env = List.filter (fun v -> v.ctr) env
 
 (* kind of an expression for the const/var discipline *)
 let rec kind env e =
@@ -40,12 +43,13 @@ let rec kind env e =
       | Some v -> if v.var then KV else KC | None -> KC)
   | EBlock items -> kind_items env items
   | EAssign (_, r) -> kind env r
+  | EWhile _ | EDoWhile _ | EPrint _ -> KC
   | _ -> KT
 and kind_items env = function
   | [] -> KT
   | [IExpr e] -> kind env e
-  | (ILet (x, _)) :: t -> kind_items ({ n = int_of_n x; t = TInt; var = false } :: env) t
-  | (IVar (x, _)) :: t -> kind_items ({ n = int_of_n x; t = TInt; var = true } :: env) t
+  | (ILet (x, _)) :: t -> kind_items ({ n = int_of_n x; t = TInt; var = false; ctr = false } :: env) t
+  | (IVar (x, _)) :: t -> kind_items ({ n = int_of_n x; t = TInt; var = true; ctr = false } :: env) t
   | _ :: t -> kind_items env t
 
 let rec gen_int st env d : expr =
@@ -63,6 +67,8 @@ let rec gen_int st env d : expr =
     Rng.weighted st.rng [
       18, (fun () -> leaf ());
       30, (fun () -> let a, b = pair () in EBin (Rng.pick st.rng [Add; Sub; Mul; Add; Sub], a, b));
+      (if ctrs_of env <> [] then 10 else 0), (fun () ->
+          EBin (Rng.pick st.rng [Add; Sub; Mul; BXor], ev (Rng.pick st.rng (ctrs_of env)), sub ()));
       10, (fun () ->
           let a = sub () in
           let b = if Rng.pct st.rng 12 then (if Rng.bool st.rng then ei 0 else EBin (Sub, ev (Rng.pick st.rng vs), ev (Rng.pick st.rng vs)))
@@ -94,6 +100,8 @@ and gen_bool st env d : expr =
   else
     Rng.weighted st.rng [
       40, (fun () -> cmp ());
+      (if ctrs_of env <> [] then 8 else 0), (fun () ->
+          EBin (Rng.pick st.rng [Lt0; Le; Gt0; Ge; Eq0; Ne], ev (Rng.pick st.rng (ctrs_of env)), gen_int st env (d - 1)));
       (if vb <> [] then 15 else 0), (fun () -> ev (Rng.pick st.rng vb));
       10, (fun () -> ENot (gen_bool st env (d - 1)));
       6, (fun () ->
@@ -126,7 +134,7 @@ and gen_block st env t d n : item list =
       (* shadowing keeps the type of the hidden name, so that an int name always stays in scope *)
       let name () =
         let cands = List.filter (fun x -> not (List.mem x bound)
-                                          && List.exists (fun v -> v.n = x && v.t = bt) env) outer in
+                                          && List.exists (fun v -> v.n = x && v.t = bt && not v.ctr) env) outer in
         if cands <> [] && Rng.pct st.rng 12 then Rng.pick st.rng cands else fresh st in
       Rng.weighted st.rng [
         30, (fun () ->
@@ -155,7 +163,7 @@ and gen_block st env t d n : item list =
 and gen_loop st env d : expr =
   st.fuelv <- st.fuelv - 1;
   let i = fresh st in
-  let iv = { n = i; t = TInt; var = false } in       (* not assignable by the body *)
+  let iv = { n = i; t = TInt; var = false; ctr = true } in       (* not assignable by the body *)
   let bound = Rng.range st.rng 0 4 in
   let env' = iv :: env in
   let body_items () = gen_block st env' TInt (d - 1) (Rng.int st.rng 3) in
@@ -171,7 +179,7 @@ and gen_loop st env d : expr =
 let gen_main st : fdef * int =
   let np = Rng.range st.rng 1 3 in
   let params = List.init np (fun _ -> let x = fresh st in (x, Rng.pct st.rng 40)) in
-  let env = List.rev_map (fun (x, v) -> { n = x; t = TInt; var = v }) params in
+  let env = List.rev_map (fun (x, v) -> { n = x; t = TInt; var = v; ctr = false }) params in
   let d = Rng.range st.rng 1 4 in
   let body = gen_block st env TInt d (Rng.range st.rng 0 5) in
   (FDef (n_of_int 0, List.map (fun (x, v) -> ((n_of_int x, v), TInt)) params, TInt, body, [], None), np)
